@@ -324,6 +324,80 @@ def inventory(mod, table_name):
     return pairs, helpers, consumers
 
 
+def _is_async_test(t):
+    return ast.unparse(t) == "self.environment.is_async"
+
+
+def _written(call):
+    """the text a `self.write(…)` / `self.writeline(…)` call emits first: a str constant, or for an f-string the leading constant
+    or a marker for `{self.filters[…]}` / `{self.tests[…]}` / `{self.choose_async('await ')}`"""
+    if not (isinstance(call, ast.Call) and isinstance(call.func, ast.Attribute) and call.func.attr in ("write", "writeline")
+            and isinstance(call.func.value, ast.Name) and call.func.value.id == "self" and call.args):
+        return None
+    a = call.args[0]
+    if isinstance(a, ast.Constant) and isinstance(a.value, str):
+        return a.value
+    if isinstance(a, ast.JoinedStr):
+        out = ""
+        for v in a.values:
+            if isinstance(v, ast.Constant):
+                out += v.value
+            else:
+                e = ast.unparse(v.value)
+                out += "<filter>" if e.startswith("self.filters[") else "<test>" if e.startswith("self.tests[") else \
+                    "<await>" if e == "self.choose_async('await ')" else "<?>"
+        return out
+    return None
+
+
+def await_sites():
+    """READ from compiler.py: what the code generator wraps in `(await auto_await(` … `))` when `environment.is_async`, and what it
+    prefixes with `choose_async('await ')`.  → (callee texts of awaited calls such as `environment.getattr`, `context.call`,
+    `<filter>`, `<test>`;  callee texts after a bare `await`, such as `loop`, `environment.get_template`)"""
+    tree = parse("compiler")
+    wrapped, bare = [], []
+
+    def first_writes(stmts):
+        """texts of the first write on every path through stmts"""
+        for st in stmts:
+            if isinstance(st, ast.Expr):
+                w = _written(st.value)
+                if w is not None:
+                    return [w]
+            elif isinstance(st, ast.If):
+                a, b = first_writes(st.body), first_writes(st.orelse)
+                if a or b:
+                    return a + b
+        return []
+
+    for fn in ast.walk(tree):
+        if not isinstance(fn, ast.FunctionDef):
+            continue
+        for node, fld in [(n, f) for n in ast.walk(fn) for f in ("body", "orelse", "finalbody")]:
+            body = getattr(node, fld, None)
+            if not isinstance(body, list):
+                continue
+            for i, st in enumerate(body):
+                if isinstance(st, ast.If) and _is_async_test(st.test) and len(st.body) == 1 and isinstance(st.body[0], ast.Expr) \
+                        and _written(st.body[0].value) == "(await auto_await(":
+                    nxt = first_writes(body[i + 1:])
+                    if not nxt:
+                        raise Untranslatable(f"{fn.name}: nothing written after `(await auto_await(`")
+                    for w in nxt:
+                        callee = w.split("(")[0]
+                        if callee not in wrapped:
+                            wrapped.append(callee)
+                if isinstance(st, ast.Expr):
+                    w = _written(st.value)
+                    if w and "<await>" in w:
+                        callee = w.split("<await>")[1].split("(")[0]
+                        if callee and callee not in bare:
+                            bare.append(callee)
+    if not wrapped:
+        raise Untranslatable("no `(await auto_await(` site found in compiler.py")
+    return wrapped, bare
+
+
 def gen():
     fpairs, fhelpers, fcons = inventory("filters", "FILTERS")
     tpairs, thelpers, tcons = inventory("tests", "TESTS")
@@ -353,6 +427,11 @@ def gen():
     L.append("/-- read: TESTS entries that consume an iterable argument; (name, has an async variant) -/")
     L.append("def testConsumers : List (String × Bool) :=\n  " + llist(
         f"({lstr(k)}, {lbool(v)})" for k, c, v in tcons if c) + "\n")
+    wrapped, bare = await_sites()
+    L.append("/-- read (compiler.py): callees the code generator wraps in `(await auto_await(` … `))` in async mode -/")
+    L.append("def awaitWrapped : List String :=\n  " + llist(lstr(x) for x in wrapped) + "\n")
+    L.append("/-- read (compiler.py): callees written after `choose_async('await ')` -/")
+    L.append("def awaitBare : List String :=\n  " + llist(lstr(x) for x in bare) + "\n")
     L.append("end JinjaV.Gen.AsyncPairs\n")
     return "AsyncPairs.lean", "\n".join(L)
 
